@@ -88,6 +88,17 @@ func buildFields(rt reflect.Type, u byte, embedded, omitEmpty bool) (fa []*finfo
 	return
 }
 
+// skipNilEmbed wraps the append function of a field promoted from an embedded
+// pointer so the field is skipped when that pointer is nil.
+func skipNilEmbed(f appendFunc) appendFunc {
+	return func(fi *finfo, buf []byte, rv reflect.Value, addr uintptr, safe bool) ([]byte, any, appendStatus) {
+		if _, err := rv.FieldByIndexErr(fi.index); err != nil {
+			return buf, nil, aSkip
+		}
+		return f(fi, buf, rv, addr, safe)
+	}
+}
+
 func buildTagFields(rt reflect.Type, out, pretty, embedded, omitEmpty bool) (fa []*finfo) {
 	for i := rt.NumField() - 1; 0 <= i; i-- {
 		f := rt.Field(i)
@@ -99,6 +110,7 @@ func buildTagFields(rt reflect.Type, out, pretty, embedded, omitEmpty bool) (fa 
 			if f.Type.Kind() == reflect.Ptr {
 				for _, fi := range buildTagFields(f.Type.Elem(), out, pretty, embedded, omitEmpty) {
 					fi.index = append([]int{i}, fi.index...)
+					fi.iAppend = skipNilEmbed(fi.iAppend)
 					fi.Append = fi.iAppend
 					fa = append(fa, fi)
 				}
@@ -153,6 +165,7 @@ func buildExactFields(rt reflect.Type, out, pretty, embedded, omitEmpty bool) (f
 			if f.Type.Kind() == reflect.Ptr {
 				for _, fi := range buildExactFields(f.Type.Elem(), out, pretty, embedded, omitEmpty) {
 					fi.index = append([]int{i}, fi.index...)
+					fi.iAppend = skipNilEmbed(fi.iAppend)
 					fi.Append = fi.iAppend
 					fa = append(fa, fi)
 				}
@@ -181,6 +194,7 @@ func buildLowFields(rt reflect.Type, out, pretty, embedded, omitEmpty bool) (fa 
 			if f.Type.Kind() == reflect.Ptr {
 				for _, fi := range buildLowFields(f.Type.Elem(), out, pretty, embedded, omitEmpty) {
 					fi.index = append([]int{i}, fi.index...)
+					fi.iAppend = skipNilEmbed(fi.iAppend)
 					fi.Append = fi.iAppend
 					fa = append(fa, fi)
 				}
